@@ -52,6 +52,29 @@ opened (also over real UDP: the canary follows on the same socket), free, port
 closed with main.close_udp_port: a failed construction leaves no responder in
 the class listing, a dispatcher or CmdPeriod and its function is never invoked;
 the port of a responder just created receives a loop-back datagram (probe).
+
+Round 9, two classes: (1) a datagram that ENDS INSIDE a bundle element (the
+quantifier's 'truncated bundle elements'): valid multi-element bundles, flat and
+nested, cut at every byte offset - exhaustively for two bundles per fuzz shard,
+randomly by offset class otherwise, so that the three offsets inside every size
+prefix are reached as often as message bodies - or followed by 1-8 NUL / 0xff /
+arbitrary bytes / the head of one more element (top level and inside a nested
+bundle), with standing responders on the addresses of all elements.  A
+structural walk over the element sizes (c18_gen.truncated_element) decides
+'ends inside an element' whatever the first deviation of the strict reading is
+called (an odd length used to hide these behind 'packet-unaligned'): nothing may
+be invoked, the elements in front of the cut included.  (2) the receive port
+handed to receive functions / responders and compared with recv_port filters is
+the port the datagram arrived on: truth is the kernel's view (getsockname of
+the interface's socket; the remote port the accepting side of a TCP connection
+sees), never the library's own bookkeeping (interface.port, lang_port()).  The
+library is also started BEHIND candidate ports held by UDP sockets of the
+harness (vf/c18_port.py, shards 'port*', worker mode 'none': the range walk of
+sc3.LIB_PORT takes 1-6 steps) and TCP connections are made while listening
+sockets of the harness hold the first 1-3 local ports they would take (default
+lang_port() + 1 and the local_port argument), in the tcp, histrt and port
+shards; per connection one responder per path filtered on the connection's real
+port (fires once per message) and one on the held first candidate (silent).
 """
 
 from vf.common import iter_cases, case_rng, h64, split
@@ -75,7 +98,11 @@ RULE = ("hist: seeded histories (5-55 ops) over <=10 responders on 4-9 paths tha
         "non-trivial = pattern has a wildcard construct and the group contains both a "
         "match and a non-match. fuzz: targeted malformed classes (negative/zero/"
         "oversized/unaligned element sizes, truncations, bad UTF-8, unknown/unbalanced "
-        "type tags, negative blob size, 3000-deep nesting, malformed address patterns) "
+        "type tags, negative blob size, 3000-deep nesting, malformed address patterns), "
+        "valid 2-4 element bundles (30 % with a nested bundle) cut at an offset drawn by "
+        "offset class (inside a size prefix +1/+2/+3, body, boundary, header; nested "
+        "likewise) or extended by 1-8 NUL / 0xff / random bytes / the head of another "
+        "element, per shard two bundles cut at EVERY offset and extended by 1-8 NUL / 0xff, "
         "and mutations of valid packets; non-trivial = not decodable by the strict "
         "decoder although it starts like a packet, or valid with >1 message. "
         "reg: add/re-add/remove/remove_all/run histories in which a running action "
@@ -85,12 +112,19 @@ RULE = ("hist: seeded histories (5-55 ops) over <=10 responders on 4-9 paths tha
         "free / disable / enable / one_shot / function replacement / permanent / "
         "CmdPeriod.run) and closed by a sentinel; non-trivial = a message concurrent "
         "with an operation and a verified 'must' invocation. "
+        "port: the library started behind 1-6 candidate ports held by the harness, then "
+        "hist / histudp histories and TCP frames as above; TCP connections (tcp, histrt, "
+        "port) are made with 0-3 of their first candidate local ports held by listening "
+        "sockets of the harness (40 % with an explicit local_port). "
         "distinct = hash of history / pattern group / datagram bytes")
 ASSUMPTIONS = [
     "vf/model_dispatch.py:osc_match is the meaning of 'OSC 1.0 pattern' (per-part "
     "matching, '-' at the end of a bracket list and '!' not at its start are literal)",
     "vf/osc.py strict decoder decides which byte strings are valid OSC 1.0; only "
-    "classes in c18_gen.STRICT_NOTHING make an invocation a violation, other "
+    "classes in c18_gen.STRICT_NOTHING - and every datagram that ends inside a bundle "
+    "element (c18_gen.truncated_element: 1-3 bytes where a size prefix is due, or an "
+    "element announced longer than what is left; at any nesting depth; the quantifier's "
+    "'truncated bundle elements') - make an invocation a violation, other "
     "deviations tolerated by a lenient reader (padding, alignment, missing type tag "
     "string or comma, trailing bytes, empty/unknown elements, short final float) are "
     "counted (lenient_dispatch/*); valid messages with optional OSC 1.0 type tags "
@@ -100,6 +134,12 @@ ASSUMPTIONS = [
     "actions) AND on the library's real CmdPeriod/StartUp/ShutDown and ServerBoot/"
     "ServerTree/ServerQuit holding actions at the same time (library-owned actions "
     "stay registered and are not judged; remove_all() is not used on the real ones)",
+    "receive port: the port a datagram arrived on is the local port of the socket it was "
+    "read from as the kernel reports it (socket.getsockname() of the interface's public "
+    "`socket`; for TCP the peer port the harness' accept() returned); datagrams handed "
+    "to OscInterface._handle_request directly count as arrived on that interface's "
+    "socket; held ports are sockets of the harness without SO_REUSEADDR bound to the "
+    "address the library binds (UDP for the main port, listening TCP for connections)",
     "MidiFunc (not OSC) is exercised for coverage of the shared dispatcher code "
     "only; its disagreements are counters observed_midi/*, never a verdict "
     "(proposed_fixes/C18-midi-dispatch.md is a note for the maintainer)",
@@ -191,7 +231,23 @@ MIN_COUNTERS = {
               'rt_messages/tcp': 1000, 'rt_invocations_checked': 4000,
               'rt_verdicts/must': 3000, 'rt_ops_overlapping_a_dispatch': 500,
               'rt_one_shots_fired': 100, 'rt_order_pairs_checked': 150,
-              'rt_injected_yields': 30000},
+              'rt_injected_yields': 30000,
+              # round 9: datagrams ending inside an element; the true receive port
+              'fuzz_truncated_element/size-prefix': 1000,
+              'fuzz_truncated_element/body': 2500, 'fuzz_sweep_datagrams': 700,
+              'fuzz_generator/bundle-cut/size-prefix-1': 80,
+              'fuzz_generator/bundle-cut/size-prefix-2': 80,
+              'fuzz_generator/bundle-cut/size-prefix-3': 80,
+              'fuzz_generator/bundle-cut/nested-size-prefix-1': 10,
+              'fuzz_generator/bundle-extended': 250,
+              'port_library_started_behind_held_ports': 2, 'port_walk_steps': 2,
+              'port_outside_probes': 2, 'port_shard/hist_messages': 1200,
+              'port_shard/udp_datagrams': 150, 'port_shard/tcp_frames': 120,
+              'tcp_connections_behind_held_ports': 4,
+              'tcp_messages_behind_held_ports': 250,
+              'tcp_recv_port_filter_checks': 300,
+              'rt_tcp_connections_behind_held_ports': 1,
+              'recv_port_filter_verdicts/fires': 2000},
     'thorough': {'hist_messages': 100000, 'invocations_checked': 60000,
                  'order_pairs_checked': 5000, 'one_shots_fired': 3000,
                  'in_callback_ops_total': 3000,
@@ -223,7 +279,22 @@ MIN_COUNTERS = {
                  'rt_messages/tcp': 15000, 'rt_invocations_checked': 60000,
                  'rt_verdicts/must': 45000, 'rt_ops_overlapping_a_dispatch': 7500,
                  'rt_one_shots_fired': 1500, 'rt_order_pairs_checked': 2000,
-                 'rt_injected_yields': 450000},
+                 'rt_injected_yields': 450000,
+                 'fuzz_truncated_element/size-prefix': 20000,
+                 'fuzz_truncated_element/body': 50000, 'fuzz_sweep_datagrams': 1200,
+                 'fuzz_generator/bundle-cut/size-prefix-1': 2000,
+                 'fuzz_generator/bundle-cut/size-prefix-2': 2000,
+                 'fuzz_generator/bundle-cut/size-prefix-3': 2000,
+                 'fuzz_generator/bundle-cut/nested-size-prefix-1': 300,
+                 'fuzz_generator/bundle-extended': 6000,
+                 'port_library_started_behind_held_ports': 3, 'port_walk_steps': 3,
+                 'port_outside_probes': 3, 'port_shard/hist_messages': 40000,
+                 'port_shard/udp_datagrams': 6000, 'port_shard/tcp_frames': 5000,
+                 'tcp_connections_behind_held_ports': 50,
+                 'tcp_messages_behind_held_ports': 15000,
+                 'tcp_recv_port_filter_checks': 20000,
+                 'rt_tcp_connections_behind_held_ports': 2,
+                 'recv_port_filter_verdicts/fires': 50000},
 }
 
 
@@ -248,6 +319,12 @@ def plan(tier, seed):
     add('tcp', 'rt', 1200 if q else 30000, 1 if q else 2)
     add('midi', 'nrt', 3000 if q else 100000, 1 if q else 2)
     add('reg', 'nrt', 6000 if q else 200000, 1 if q else 2)
+    # the library started BEHIND ports other programs hold (vf/c18_port.py starts
+    # it itself: worker mode 'none'), one process per number of held ports
+    for k, held in enumerate((1, 3) if q else (1, 3, 6)):
+        shards.append({'name': f'port{k}', 'mode': 'none', 'kind': 'port', 'held': held,
+                       'first_case': 0, 'n': 300 if q else 6000,
+                       'secs': 26 if q else 420, 'hard_timeout': secs + 150})
     return shards
 
 
@@ -274,5 +351,8 @@ def run_shard(spec, acc):
     elif kind == 'reg':
         from vf import c18_reg
         c18_reg.run(spec, acc)
+    elif kind == 'port':
+        from vf import c18_port
+        c18_port.run(spec, acc)
     else:
         raise ValueError(kind)
